@@ -124,7 +124,7 @@ class Concretiser:
         if cls == "lit":
             lit = code[-1]
             node = ('str', lit)
-        elif cls in ("plain",):
+        elif cls in ("plain", "envstr"):
             if m:
                 s = "zzsecret%d" % idn
                 node, tok = ('str', s), s
@@ -561,7 +561,69 @@ def add_violation(res, sig, r, detail=None):
 
 
 def generate(module, cfgfile, cfgs, defines, sink, timeout=1500, simulate=None, depth=None, seed=None):
-    d = {"Cfgs": cfgs_tla(cfgs), "TWTables": "{}", "TWShapeKinds": "{}"}
+    d = {"Cfgs": cfgs_tla(cfgs), "TWTables": "{}", "TWShapeKinds": "{}", "FreeDepth": "1", "FreeKeys": "{}", "FreeSlots": "{}"}
     d.update(defines or {})
     return common.run_tlc(module, cfgfile, defines=d, sink=sink, want_records=False, timeout=timeout,
                           simulate=simulate, depth=depth, seed=seed)
+
+
+# ------------------------------------------------------------------ zones (judge-side, from the property statements)
+HOLDERS = ("command", "cmd", "originatingCommand")
+ZONE_KEYS = ("query", "filter", "sort", "update", "updates", "deletes", "q", "u", "documents", "pipeline")
+NS_COMMAND_FIELDS = ("ns", "aggregate", "insert", "find", "update", "collection", "delete", "$db", "count", "findAndModify",
+                     "findOneAndDelete", "replace", "findOneAndReplace", "findOneAndUpdate", "getIndexes", "countDocuments")
+
+
+def in_zone(path):
+    """attr/<holder>/<zone key>/... (positions where redaction may change something)."""
+    return len(path) >= 3 and path[0] == "attr" and path[1] in HOLDERS and path[2] in ZONE_KEYS
+
+
+def is_gated(inp):
+    c = jsonx.get(inp, ("c",))
+    m = jsonx.get(inp, ("msg",))
+    return (c is not None and c[0] == 'str' and c[1] in ("COMMAND", "QUERY", "WRITE")) or (m is not None and m == ('str', "Slow query"))
+
+
+def keep_position(path, leaf=None):
+    """C04: $limit / $skip arguments at any pipeline depth; in top-level stages $sample.size, search / vectorSearch
+    index, numCandidates, limit.  Only real arguments count: numbers, and for index names strings that are not
+    '$' references (a '$field' string there is not an argument the statement speaks about)."""
+    if not in_zone(path) or len(path) < 5 or path[2] != "pipeline":
+        return False
+    if leaf is not None:
+        if leaf[0] == 'str' and (leaf[1].startswith("$") or path[-1] != "index"):
+            return False
+        if leaf[0] not in ('num', 'str'):
+            return False
+    if path[-1] in ("$limit", "$skip") and isinstance(path[-2], int):
+        return True
+    if len(path) == 6 and isinstance(path[3], int):
+        st, arg = path[4], path[5]
+        if st == "$sample" and arg == "size":
+            return True
+        if st in ("$search", "$searchMeta") and arg == "index":
+            return True
+        if st == "$vectorSearch" and arg in ("index", "numCandidates", "limit"):
+            return True
+    return False
+
+
+def walk_both(a, b, path=()):
+    """Yields ('key', path, k_in, k_out) and ('leaf', path, in_node, out_node) while the shapes agree; ('shape', path, why) where they do not."""
+    t = a[0]
+    if t == 'obj':
+        if b is None or b[0] != 'obj' or len(b[1]) != len(a[1]):
+            yield ('shape', path, "object vs %s" % (b[0] if b else None))
+            return
+        for (k, v), (k2, v2) in zip(a[1], b[1]):
+            yield ('key', path + (k,), k, k2)
+            yield from walk_both(v, v2, path + (k,))
+    elif t == 'arr':
+        if b is None or b[0] != 'arr' or len(b[1]) != len(a[1]):
+            yield ('shape', path, "array vs %s" % (b[0] if b else None))
+            return
+        for i, (v, v2) in enumerate(zip(a[1], b[1])):
+            yield from walk_both(v, v2, path + (i,))
+    else:
+        yield ('leaf', path, a, b)
